@@ -680,24 +680,47 @@ func c07Calls(r *rand.Rand, st *stack, nic mon.NIC, e gen.Env, n int) []txCall {
 				continue
 			}
 			a := netip.AddrFrom16([16]byte{0x20, 0x01, 0x0d, 0xb8, 1})
-			calls = append(calls, txCall{api: "icmp6.StartRADVS", call: func() error {
+			extra := r.Intn(2) // 1: a LAN router the handler did not know advertises itself meanwhile, then SendRA is asked for
+			calls = append(calls, txCall{api: "icmp6.StartRADVS", args: fmt.Sprintf("prefix=%v sendra-after-new-router=%d", a, extra), call: func() error {
 				ra, err := st.icmp6.StartRADVS(r.Intn(2) == 0, r.Intn(2) == 0, []packet.PrefixInformation{{Prefix: net.IP(a.AsSlice()), PrefixLength: 64}}, icmp_spoofer.RDNSSCLoudflare)
 				if err != nil {
 					return err
+				}
+				if extra == 1 {
+					other := refdec.RA{HopLimit: 64, Flags: 0, Lifetime: 1800, Opts: []refdec.NDPOpt{refdec.OptLLA(refdec.OptSLLA, c14Routers[1].mac),
+						refdec.OptPrefixInfo(refdec.PrefixInfo{Len: 64, OnLink: true, Auto: true, Valid: 7200, Preferred: 1800, Prefix: netip.MustParseAddr("2001:db8:aaaa:bbbb::")})}}
+					for k := 0; k < 4; k++ { // the handler looks at every 4th advertisement
+						if frame, perr := s.Parse(raFrame(1, other)); perr == nil {
+							st.icmp6.ProcessPacket(frame)
+						}
+					}
+					if err := ra.SendRA(); err != nil {
+						return err
+					}
 				}
 				time.Sleep(5 * time.Minute) // 2 min period: 1 + 2 advertisements
 				ra.Stop()
 				return nil
 			},
 				verify: func(err error, fr []mon.TxFrame, in []mon.TxInfo) string {
+					for _, x := range in {
+						if x.ARP != nil || len(x.ICMP) < 16 || x.ICMP[0] != 134 {
+							continue
+						}
+						// every advertisement of the daemon carries what the caller asked it to advertise
+						d, derr := refdec.DecodeRA(x.ICMP)
+						if derr != nil || len(d.Prefixes) != 1 || d.Prefixes[0].Prefix != a || d.RDNSS == nil {
+							return fmt.Sprintf("ra-content: an advertisement of the daemon carries prefixes %+v rdnss=%v, asked for %v/64 and the Cloudflare servers", d.Prefixes, d.RDNSS != nil, a)
+						}
+					}
 					var ras []mon.TxInfo
 					for _, x := range in { // the session's own purge probes (ARP) may fall into these five minutes
 						if x.ARP == nil {
 							ras = append(ras, x)
 						}
 					}
-					if len(ras) != 3 {
-						return fmt.Sprintf("frame-count: RADVS sent %d advertisements in 5 minutes (1 + one per 2 minutes expected)", len(ras))
+					if len(ras) != 3+extra {
+						return fmt.Sprintf("frame-count: RADVS sent %d advertisements in 5 minutes (1 + one per 2 minutes%s expected)", len(ras), map[int]string{0: "", 1: " + the one asked for"}[extra])
 					}
 					for _, x := range ras {
 						if len(x.ICMP) < 16 || x.ICMP[0] != 134 {
